@@ -1743,9 +1743,12 @@ namespace avel {
         vec4x32i arg_exponent{_mm_srli_epi32(exponent_field, 23)};
 
         // Perform two multiplications such that they should never lead to lossy rounding
-        vec4x32i lower_bound0{vec4x32i{1} - arg_exponent};
+        // Both halves of the extracted magnitude must remain representable as normal powers of two
+        vec4x32i lower_bound0{max(vec4x32i{1} - arg_exponent, vec4x32i{-252})};
         vec4x32i upper_bound0{vec4x32i{254} - arg_exponent};
 
+        // Exponents beyond this range all produce the same result. Clamping keeps the subtraction below from overflowing
+        exp = clamp(exp, vec4x32i{-512}, vec4x32i{+512});
         vec4x32i extracted_magnitude = clamp(exp, lower_bound0, upper_bound0);
         exp -= extracted_magnitude;
 
